@@ -984,9 +984,46 @@ func ruleReq(p *Prog, r *Report) {
 	fReq := p.Field("shaping", "breakOption", "required")
 	fits := constInt(p, "shaping", "fits")
 	isReq := func(v ssa.Value) bool { return fieldOf(v) == fReq || isLoadOfField(v, fReq) }
-	reqIfs := ifsOn(wnl, isReq)
-	r.Floor(rule, len(reqIfs), 1)
 	nextCand := func(in ssa.Instruction) bool { return staticCallTo(in, nwb) || staticCallTo(in, ngb) }
+	// the tests of the flag that decide the end of a line are the ones met after a candidate was found to fit, before the
+	// next candidate is requested: a test of the flag in another case (a candidate that does not fit) is not one of them
+	var fitsIfs []*ssa.If
+	for _, b := range wnl.Blocks {
+		iff := ifOf(b)
+		if iff == nil {
+			continue
+		}
+		bo, ok := iff.Cond.(*ssa.BinOp)
+		if !ok || bo.Op != token.EQL {
+			continue
+		}
+		ex, ok := stripConv(bo.X).(*ssa.Extract)
+		if !ok || ex.Index != 0 {
+			continue
+		}
+		pc, ok := ex.Tuple.(*ssa.Call)
+		if !ok || pc.Common().StaticCallee() != pbo {
+			continue
+		}
+		if c, ok := intConst(bo.Y); ok && c == fits {
+			fitsIfs = append(fitsIfs, iff)
+		}
+	}
+	var reqIfs []*ssa.If
+	for _, q := range ifsOn(wnl, isReq) {
+		for _, f := range fitsIfs {
+			if hit, _ := reachableFrom(p, wnl, point{f.Block().Succs[0], 0}, func(in ssa.Instruction) bool { return in == ssa.Instruction(q) }, nextCand, nil); hit != nil {
+				reqIfs = append(reqIfs, q)
+				break
+			}
+		}
+	}
+	missing := false // a fitting UAX#14 candidate reaches the next request without any test of the flag: reported below
+	defer func() {
+		if !missing {
+			r.Floor(rule, len(reqIfs), 1)
+		}
+	}()
 	for i, iff := range reqIfs {
 		key := fmt.Sprintf("%s/required#%d", p.FnName(wnl), i+1)
 		r.Instance(rule, key)
@@ -994,9 +1031,8 @@ func ruleReq(p *Prog, r *Report) {
 		r.Check(hit == nil, rule, key, p.IPos(iff), "after a mandatory break candidate fits, the line ends without requesting another candidate", path...)
 	}
 	// from the `fits` edge of a word candidate, the required test is passed before the next word candidate is requested
-	for _, wc := range callsOf(wnl, nwb) {
-		_ = wc
-	}
+	nWordFits := 0
+	defer func() { r.Floor(rule+"(fits edge of a UAX#14 candidate)", nWordFits, 1) }()
 	for _, b := range wnl.Blocks {
 		iff := ifOf(b)
 		if iff == nil {
@@ -1018,25 +1054,27 @@ func ruleReq(p *Prog, r *Report) {
 			continue
 		}
 		// is the candidate of this processBreakOption call a word candidate (from nextWordBreak)?
-		isWord := derivesFrom(pc.Common().Args[1], func(v ssa.Value) bool {
+		isWord := derivesFromAgg(pc.Common().Args[1], func(v ssa.Value) bool {
 			e, ok := v.(*ssa.Extract)
 			if !ok {
 				return false
 			}
 			c, ok := e.Tuple.(*ssa.Call)
 			return ok && c.Common().StaticCallee() == nwb
-		}, 0)
+		})
 		if !isWord {
 			continue
 		}
 		key := p.FnName(wnl) + "/fits->required"
 		r.Instance(rule, key)
+		nWordFits++
 		reqSet := map[*ssa.If]bool{}
 		for _, q := range reqIfs {
 			reqSet[q] = true
 		}
 		hit, path := reachableFrom(p, wnl, point{iff.Block().Succs[0], 0}, func(in ssa.Instruction) bool { return staticCallTo(in, nwb) },
 			func(in ssa.Instruction) bool { q, ok := in.(*ssa.If); return ok && reqSet[q] }, nil)
+		missing = missing || hit != nil
 		r.Check(hit == nil, rule, key, p.IPos(iff), "every path from a fitting UAX#14 candidate to the next candidate request tests its `required` flag", path...)
 	}
 }
